@@ -7,7 +7,8 @@ READY = True
 THEOREMS = ["C02.sets_closed", "C02.sets_exact", "C02.fuel_enough", "C02.det_complete", "C02.fact_lang_eq", "C02.exact", "C02.reject_raises", "C02.exact_templates", "C02.smart_indep",
             "C02.conflict_report_exact", "C02.ll1_as_written_unambiguous"]
 RULE = ("one case = one generated grammar (generators and dimensions as C01 - templates, argument kinds, several parser objects, "
-        "str / list-of-lines input - with more LL(1)-ish grammars; right-recursive LL(1) grammars on sentences and non-sentences of "
+        "str / list-of-lines input - with more LL(1)-ish grammars incl. unit productions over a nullable symbol declared before productions "
+        "starting with the same symbol; right-recursive LL(1) grammars on sentences and non-sentences of "
         "150, 500 and 2000 tokens; every 50th accepted grammar is also used by two threads at once and each call must give the "
         "sequential answer), constructed with "
         "smart_factorization True and False, each followed by every token string up to the tier's length plus "
@@ -22,7 +23,12 @@ ASSUMPTIONS = ["hypotheses of C02.exact / reject_raises / smart_indep: as C01.pa
                "oracle skips them",
                "in C02.ll1_as_written_unambiguous 'LL(1) as written' is stated with the model's own nullable/FIRST/FOLLOW functions "
                "applied to the user's productions (proved to be the least sets: C02.sets_exact); the oracle uses an independent "
-               "FIRST/FOLLOW computation"]
+               "FIRST/FOLLOW computation",
+               "an alternative given as None is the empty alternative and AnyTokenExcept(*names) is the list of its one-token "
+               "alternatives when the model sees them (protocol `!` / field AX=); the harness expands AnyTokenExcept itself: the "
+               "SET of tokens is the reference's (token groups - synonym sources + synonym and keyword targets), only the order "
+               "among them (iteration order of a Python set) is read from the code; the parser is built from the original "
+               "None / AnyTokenExcept objects; terminal names containing `__` are not generated"]
 
 
 def impl(case):
